@@ -27,6 +27,8 @@ type Mutant struct {
 	Patch      string   `json:"patch"` // relative to the verif dir
 	Properties []string `json:"properties"`
 	What       string   `json:"what"`
+	Expect     string   `json:"expect,omitempty"`    // "silent": a behaviour-preserving edit the checks must NOT report
+	KnownGap   string   `json:"known_gap,omitempty"` // documented limit of the checker: listed, does not fail selftest
 }
 
 func loadMutants(vd string) ([]Mutant, error) {
@@ -105,6 +107,8 @@ type mutantResult struct {
 	Keys     []string `json:"reported_keys,omitempty"`
 	Err      string   `json:"error,omitempty"`
 	What     string   `json:"what,omitempty"`
+	Expect   string   `json:"expect,omitempty"`
+	KnownGap string   `json:"known_gap,omitempty"`
 }
 
 // cmdMutant: annverif mutant -property Cxx -patch <file> [-repo /repo]; prints one JSON line.
@@ -214,6 +218,8 @@ func runMutants(vd, repo, prop string, par int) ([]mutantResult, error) {
 				r.Err = "bad output: " + e.Error()
 			}
 			r.What = j.m.What
+			r.Expect = j.m.Expect
+			r.KnownGap = j.m.KnownGap
 			out[i] = r
 		}(i, j)
 	}
@@ -228,6 +234,24 @@ func lastLine(b []byte) []byte {
 		s = s[i+1:]
 	}
 	return []byte(s)
+}
+
+// verdict classifies one mutant run: "reported", "silent-ok", "skipped", "known-gap", "GAP" (missed), "FALSE-ALARM".
+func (r mutantResult) verdict() string {
+	switch {
+	case !r.Applies && r.Err == "":
+		return "skipped"
+	case r.Expect == "silent":
+		if r.Detected {
+			return "FALSE-ALARM"
+		}
+		return "silent-ok"
+	case r.Detected:
+		return "reported"
+	case r.KnownGap != "":
+		return "known-gap"
+	}
+	return "GAP"
 }
 
 // thoroughExtras: (a) the same rules under a second build configuration (GOARCH=386, cgo off: the
@@ -281,23 +305,27 @@ func thoroughExtras(prop, repo string, rep *core.Report) int {
 		rep.Extra["checker_selftest"] = map[string]interface{}{"error": err.Error()}
 		return code
 	}
-	var gaps []string
+	var gaps, fa, kg []string
 	det, skipped := 0, 0
 	for _, r := range res {
-		switch {
-		case !r.Applies && r.Err == "":
+		switch r.verdict() {
+		case "skipped":
 			skipped++
-		case r.Detected:
+		case "reported", "silent-ok":
 			det++
+		case "known-gap":
+			kg = append(kg, r.ID)
+		case "FALSE-ALARM":
+			fa = append(fa, r.ID)
 		default:
 			gaps = append(gaps, r.ID)
 		}
 	}
 	rep.Extra["checker_selftest"] = map[string]interface{}{
 		"what": "every registered change that breaks this property (inverse of each fix commit; seeded changes under /verif/seeded) is applied through the loader's overlay — /repo is not modified — and the property's rules must report it",
-		"mutants": len(res), "reported": det, "skipped_patch_no_longer_applies": skipped, "checker_gaps": gaps, "results": res,
+		"mutants": len(res), "as_expected": det, "skipped_patch_no_longer_applies": skipped, "checker_gaps": gaps, "documented_gaps": kg, "false_alarms_on_benign_edits": fa, "results": res,
 	}
-	fmt.Printf("annverif: %s thorough: second configuration done; %d registered breaking changes replayed through the overlay, %d reported, %d skipped, gaps=%v\n", prop, len(res), det, skipped, gaps)
+	fmt.Printf("annverif: %s thorough: second configuration done; %d registered changes replayed through the overlay, %d as expected, %d skipped, gaps=%v documented-gaps=%v false-alarms=%v\n", prop, len(res), det, skipped, gaps, kg, fa)
 	return code
 }
 
@@ -359,21 +387,17 @@ func cmdSelftest(args []string) int {
 	}
 	bad := 0
 	for _, r := range res {
-		st := "reported"
-		switch {
-		case !r.Applies && r.Err == "":
-			st = "skipped (patch no longer applies)"
-		case !r.Detected:
-			st = "MISSED"
+		st := r.verdict()
+		if st == "GAP" || st == "FALSE-ALARM" {
 			bad++
 		}
 		k := ""
 		if len(r.Keys) > 0 {
 			k = r.Keys[0]
 		}
-		fmt.Printf("%-14s %-4s %-10s %s %s\n", r.ID, r.Property, st, k, r.Err)
+		fmt.Printf("%-34s %-4s %-11s %s %s\n", r.ID, r.Property, st, k, r.Err)
 	}
-	fmt.Printf("selftest: %d mutant runs, %d missed\n", len(res), bad)
+	fmt.Printf("selftest: %d mutant runs, %d not as expected\n", len(res), bad)
 	if bad > 0 {
 		return 1
 	}
